@@ -99,7 +99,14 @@ pub fn std_world() -> Plain {
     w.insert(RICH, PlainAcc { balance: U256::MAX, ..Default::default() });
     w.insert(DUST, PlainAcc::default());
     w.insert(STOR, PlainAcc::default().with_storage(1, 1));
+    // the CREATE2 address of (A, OVF_SALT, Init::Empty) already holds 2^256-1: a creation with value
+    // onto it is not a collision, its endowment overflows
+    w.insert(create2_addr(A, OVF_SALT, &Init::Empty.code()), PlainAcc { balance: U256::MAX, ..Default::default() });
     w
+}
+pub const OVF_SALT: u64 = 7;
+pub fn create2_addr(creator: Address, salt: u64, init_code: &[u8]) -> Address {
+    creator.create2(revm::primitives::B256::from(U256::from(salt).to_be_bytes::<32>()), revm::primitives::keccak256(init_code))
 }
 
 #[derive(Clone, Copy, Debug, PartialEq, Eq, Hash)]
